@@ -403,6 +403,31 @@ pub fn c06(cx: &mut Ctx) {
             }
         }
     }
+    // the response whose framing is decided is the refusal of an Expect: 100-continue request, seen while
+    // awaiting (with fields / bare) or after the caller gave up and sent the body
+    for status in [200u16, 204, 302, 304, 403, 413] {
+        for fr in ["Content-Length: 9\r\n", "Transfer-Encoding: chunked\r\n", "", "Content-Length: 0\r\n", "Content-Length: 9\r\nTransfer-Encoding: chunked\r\n"] {
+            for ver in [0u8, 1] {
+                for route in 0..3 {
+                    cx.case("refused");
+                    if !to_await100(cx, "POST", "HTTP/1.1", Some(3)) { continue; }
+                    let head = format!("HTTP/1.{} {} X\r\n{}{}\r\n", ver, status, if status == 302 { "Location: /n\r\n" } else { "" }, fr).into_bytes();
+                    // route 0: whole head seen while awaiting; 1: only its status line and the start of a field;
+                    // 2: never looked at while awaiting (gave up)
+                    if route == 0 { cx.op(&format!("read100 {}", hx(&head))); }
+                    if route == 1 { cx.op(&format!("read100 {}", hx(&head[..(head.len() - 3).min(22)]))); }
+                    cx.op("keep100");
+                    cx.op("proceed");
+                    if cx.rec.state() == "sendBody" { cx.op("bwrite 616263 100"); cx.op("canproceed"); cx.op("proceed"); }
+                    if cx.rec.state() != "recvResponse" { continue; }
+                    cx.op(&format!("resp {}", hx(&head)));
+                    cx.op("canproceed");
+                    cx.op("proceed");
+                    if cx.rec.state() == "recvBody" { cx.op("mode"); }
+                }
+            }
+        }
+    }
     // several framing fields, both orders; the first value of each name decides
     for (a, b) in [("Content-Length: 3\r\nContent-Length: 4\r\n", 0), ("Transfer-Encoding: gzip\r\nTransfer-Encoding: chunked\r\n", 1), ("Transfer-Encoding: chunked\r\nContent-Length: 0\r\n", 2), ("Content-Length: 0\r\nTransfer-Encoding: chunked\r\n", 3), ("content-length: 0\r\ntransfer-encoding: gzip, Chunked\r\n", 4)] {
         for status in [200u16, 302, 204] {
